@@ -1260,6 +1260,7 @@ static Target t = {
     "counts 0,1,2,3,.. and 2^32-1, bounds incl. 1e300, denormals, inf, nan; then a drawn interleaving (<= 160 calls) of value / advance / value+advance / reset / clone / "
     "mpt_iterator_consume / documented loop over the source and up to 3 clones (text argument iterator: three reads in four are followed by a second read of the same element "
     "with another target type, fitting or not, before the advance), closed by walk-to-end, reset, second walk and two reads/advances past the end; "
+    "mpt_iterator_string read as keywords with generated separator argument (NULL, empty, custom sets) on texts containing , ; / : | ; "
     "mpt_values_linear / mpt_values_bound on strided targets; generator names derived from the documented ones by one edit (random incl. case variants, blanks, non-letters; "
     "exhaustive for prefixes / insertions / substitutions / deletions), accepted iff documented. non-trivial: a source with at least one element was walked to its end and elements were replayed after a reset or "
     "in a clone, a malformed description was refused, or a strided fill of >= 3 points was checked; distinct by hash of the draw sequence.",
